@@ -179,7 +179,9 @@ impl fmt::Display for CompoundVariable {
                     //index: x_1.5 is refused, x_a is the variable a
                     _ => format!("{{{}}}", i),
                 },
-                PreExp::Variable(name) => name.value().clone(),
+                //a name with an underscore written bare is not read back as the variable:
+                //x__i is the literal name fragment _i, x_a_b has two indexes
+                PreExp::Variable(name) if !name.value().contains('_') => name.value().clone(),
                 _ => format!("{{{}}}", i),
             })
             .collect::<Vec<String>>();
